@@ -191,7 +191,8 @@ class DAGRunConcurrentManager(DAGRunManagerLike):
 
         if node_id != self.dag.input_node:
             for pred_node_id in self.dag.graph.predecessors(node_id):
-                kwarg_name = self.dag.graph.edges[(pred_node_id, node_id)].get(EdgeField.kwarg_name)
+                edge = self.dag.graph.edges[(pred_node_id, node_id)]
+                kwarg_name = edge.get(EdgeField.kwarg_name)
 
                 if kwarg_name is None:
                     continue
@@ -207,6 +208,10 @@ class DAGRunConcurrentManager(DAGRunManagerLike):
                         pred_node_id,
                         with_hidden=True,
                     )
+
+                # The other parameters of the node that refer to the same dependency
+                for extra_kwarg_name in edge.get(EdgeField.extra_kwarg_names, ()):
+                    kwargs[extra_kwarg_name] = kwargs[kwarg_name]
 
         else:
             kwargs = dict(self.ctx.input_kwargs)
